@@ -145,6 +145,17 @@ MCREW_RULE = ("operation sequences of 3-12 add / remove / process operations ove
               "(no lost update) with memory equal to the store.  The service is driven in-process by a test file added with "
               "`go test -overlay`.  Non-trivial: more than two operations.")
 
+MCREW_TIMERS_OVERLAY = {"pkg": "cmd/mcrew", "test": "TestVerifTimersDriver", "race": True,
+                        "files": {"cmd/mcrew/zz_verif_timers_test.go": "go/overlay/mcrew_timers_test.go"}}
+
+TIMERS_RULE = ("scripted scenarios over three timer ids with delays of 10-120 ms: make / cancel requests from the requester, from inside "
+               "the handler of a firing message (re-create the firing id, cancel-and-re-create, re-create-then-cancel), sleeps, reads of "
+               "the pending set, a restart from the persisted timers state between creation and due time (sio), and dedicated "
+               "cancel-racing-the-due-time scenarios; run in real time against both timer implementations (mcrew through a test file "
+               "added with `go test -overlay`, sio through the crew and its timers machine).  The event log (request results, firings with "
+               "timestamps, pending sets) is replayed on the transition system of Sheens/Timers.lean: it must be a trace of the model "
+               "and the trace invariants must hold on it.  Non-trivial: a timer fired or a request succeeded.")
+
 PROPS = {
     "C01": {
         "modules": ["Sheens.Props.C01", "Sheens.Props.MatchTotal"],
@@ -268,8 +279,10 @@ PROPS = {
         "theorems": [],
         "facts": [],
         "runs": {
-            "quick": [("crew", ["-profile", "crew", "-n", "700"])],
-            "thorough": [("crew", ["-profile", "crew", "-n", "15000"])],
+            "quick": [("crew", ["-profile", "crew", "-n", "700"]),
+                      ("mcrewgen", ["-profile", "mcrew", "-n", "100"], {"overlay": MCREW_OVERLAY})],
+            "thorough": [("crew", ["-profile", "crew", "-n", "15000"]),
+                         ("mcrewgen", ["-profile", "mcrew", "-n", "1000"], {"overlay": MCREW_OVERLAY})],
         },
         "analyze": analyze_generic,
         "oracles": ["deliveredOnce"],
@@ -301,5 +314,20 @@ PROPS = {
         "oracles": ["memEqStore", "failedIsNoop"],
         "probes": ["noLostUpdate"],
         "rule": MCREW_RULE,
+    },
+    "C17": {
+        "modules": ["Sheens.Props.C17"],
+        "theorems": [],
+        "facts": [],
+        "runs": {
+            "quick": [("timersgen", ["-profile", "mcrew", "-n", "120"], {"overlay": MCREW_TIMERS_OVERLAY}),
+                      ("siotimers", ["-n", "120"])],
+            "thorough": [("timersgen", ["-profile", "mcrew", "-n", "1500"], {"overlay": MCREW_TIMERS_OVERLAY}),
+                         ("siotimers", ["-n", "1500"])],
+        },
+        "analyze": analyze_generic,
+        "oracles": ["logAccepted", "firedOnce", "neverEarly", "neverBoth", "tableIsPending", "tableLive", "noMissedFire"],
+        "probes": [],
+        "rule": TIMERS_RULE,
     },
 }
